@@ -536,7 +536,7 @@ fn c11_capsule_close() {
     }
 }
 
-// @h props=C11 tier=quick t=120 expect=fail sub=twin
+// @h props=C11 tier=quick t=900 expect=fail sub=twin
 // @fn wtransport-proto/src/frame.rs Frame::read
 // @bound twin: claims Frame::read never returns a frame; must be refuted
 #[kani::proof]
